@@ -447,7 +447,12 @@ func disturb(g graph.Graph, h *gx.G, o callOpts, key string, viol *[]hx.OracleVi
 	}
 	hold("the graph", g, o)
 	n := h.N
-	others := []*gx.G{h.Complement()}
+	// other graphs: the same size (reversed labelling; the complement when small), one vertex
+	// fewer, one more, two vertices, and the same size again
+	others := []*gx.G{h.Relabel(rev(n))}
+	if n <= 9 {
+		others = append(others, h.Complement())
+	}
 	if n >= 2 {
 		sub := make([]int, n-1)
 		for i := range sub {
@@ -460,21 +465,49 @@ func disturb(g graph.Graph, h *gx.G, o callOpts, key string, viol *[]hx.OracleVi
 		for j := 0; j < n; j++ {
 			bigger.A[i][j] = h.A[i][j]
 		}
-		if i%2 == 0 {
+		if i%7 == 0 {
 			bigger.Add(i, n)
 		}
 	}
-	others = append(others, bigger, gx.Path(2), h.Relabel(rev(n)))
+	others = append(others, bigger, gx.Path(2), other(h, n))
+	type rerun struct {
+		name string
+		x    graph.Graph
+		oo   callOpts
+		k    string
+	}
+	var second []rerun
 	for k, x := range others {
 		oo := o
 		oo.pairs, oo.cvs = samplePairs(x.N), sampleCvs(x.N)
+		// NumberOfCycles keeps every combination of fundamental cycles: only on graphs with few
+		// independent cycles; the unbounded searches only on small graphs
+		oo.cy = o.cy && x.M()-x.N+numComponents(x) <= 8
+		if x.N > 9 || x.M() > 3*x.N {
+			if oo.icb != skip {
+				oo.icb = 3
+			}
+			if oo.ipb != skip {
+				oo.ipb = 2
+			}
+		}
 		var xg graph.Graph
 		if k%2 == 0 {
 			xg = denseOf(x)
 		} else {
 			xg = sparseOf(x)
 		}
-		hold(fmt.Sprintf("another graph on %d vertices", x.N), xg, oo)
+		name := fmt.Sprintf("another graph on %d vertices", x.N)
+		hold(name, xg, oo)
+		second = append(second, rerun{name, xg, oo, hs[len(hs)-1].k})
+	}
+	// the other graphs once more, in the opposite order: what a function returns for a graph
+	// must not depend on which graphs it was called on before
+	for i := len(second) - 1; i >= 0; i-- {
+		e := second[i]
+		if k := callAll(e.x, e.oo).key(); k != e.k {
+			fail("the calls on %s give other values when they are repeated after calls on other graphs: first [%s] then [%s]", e.name, e.k, k)
+		}
 	}
 	first := hs[0]
 	for _, e := range hs {
@@ -492,4 +525,28 @@ func rev(n int) []int {
 		p[i] = n - 1 - i
 	}
 	return p
+}
+
+func numComponents(h *gx.G) int {
+	seen := make([]bool, h.N)
+	c := 0
+	for s := 0; s < h.N; s++ {
+		if seen[s] {
+			continue
+		}
+		c++
+		stack := []int{s}
+		seen[s] = true
+		for len(stack) > 0 {
+			v := stack[len(stack)-1]
+			stack = stack[:len(stack)-1]
+			for w := 0; w < h.N; w++ {
+				if h.A[v][w] && !seen[w] {
+					seen[w] = true
+					stack = append(stack, w)
+				}
+			}
+		}
+	}
+	return c
 }
